@@ -3,6 +3,7 @@
     of acquisitions of each), and every schedule [sched] (any length; spurious
     wake-ups are schedule events) of the sequentially consistent interleaving
     model [model/Mutex.v] of [Mutex::sys_lock]/[sys_unlock] (Linux futex path). *)
+From Coq Require Import String.
 From Aranya Require Import base.Tactics base.Interleave gen.GenConc model.Mutex proofs.MutexProofs
   proofs.MutexBounded proofs.MutexCasProofs.
 Open Scope N_scope.
@@ -105,3 +106,21 @@ Check cas_mutex_exclusive :
   /\ (ckey (sh g) = 0 <-> forall t l, at_ g t l -> choldingb (cpc_of l) = false)
   /\ (forall t l, at_ g t l -> cpc_of l <> CDone -> enabled (fun t : nat => t) cstep t g = true).
 Print Assumptions cas_mutex_exclusive.
+
+(** Model assumption made checkable: the futex shim of the replay stands for a
+    process-shared futex on the key word — the system-call sites of mutex.rs,
+    regenerated from the source on every run, carry no private flag and address [key]. *)
+Theorem futex_shared_on_key : futex_shared_on_key_stmt.
+Proof. exact futex_shared_on_key_proof. Qed.
+Check futex_shared_on_key :
+  futex_calls =
+  [("sys_lock", "futex_wait", ["&self.key"; "Self::MUTEX_SLEEPING"]);
+   ("sys_unlock", "futex_wake", ["&self.key"; "1"]);
+   ("futex", "syscall", ["SYS_futex"; "uaddr"; "futex_op"; "val"; "timeout"; "uaddr2"; "val3"]);
+   ("futex_wait", "futex", ["ptr::from_ref::<AtomicU32>(uaddr)"; "FUTEX_WAIT"; "val"; "ptr::null_mut()"; "ptr::null_mut()"; "0"]);
+   ("futex_wake", "futex", ["ptr::from_ref::<AtomicU32>(uaddr)"; "FUTEX_WAKE"; "cnt"; "ptr::null_mut()"; "ptr::null_mut()"; "0"]);
+   ("futex_wait", "__ulock_wait", ["UL_COMPARE_AND_WAIT|ULF_NO_ERRNO"; "ptr::from_ref::<AtomicU32>(addr).cast::<u32>().cast_mut().cast::<c_void>()"; "u64::from(val)"; "0"]);
+   ("futex_wake", "__ulock_wake", ["UL_COMPARE_AND_WAIT|ULF_NO_ERRNO"; "ptr::from_ref::<AtomicU32>(addr).cast::<u32>().cast_mut().cast::<c_void>()"; "u64::from(cnt)"])]%string
+  /\ futex_libc_imports = ["FUTEX_WAIT"; "FUTEX_WAKE"; "SYS_futex"; "c_int"; "syscall"; "timespec"]%string
+  /\ ulock_consts = ["UL_COMPARE_AND_WAIT=1"; "ULF_NO_ERRNO=0x01000000"]%string.
+Print Assumptions futex_shared_on_key.
